@@ -293,11 +293,11 @@ def norm(v, m, deg=None):
     return [(x % m) if (isinstance(x, int) and not isinstance(x, bool) and m) else x for x in flat(v, deg)]
 
 
-def crate_dir(crate):
+def crate_dir(crate, repo=REPO):
     if crate.startswith('t_'):
         d = TEST_CURVE_DIR.get(crate)
-        return REPO + '/test-curves/src/' + (d if d else crate[2:] + '.rs')
-    return REPO + '/curves/%s/src' % crate
+        return repo + '/test-curves/src/' + (d if d else crate[2:] + '.rs')
+    return repo + '/curves/%s/src' % crate
 
 
 def registry(c16_rs):
@@ -355,14 +355,14 @@ FN_KIND = {'sw': 'sw', 'te': 'te', 'glv': 'glv', 'fp2': 'fp2', 'fp3': 'fp3', 'ex
            'mnt4': 'mnt4', 'mnt6': 'mnt6', 'wb': 'wb', 'ell2': 'elligator2'}
 
 
-def scan(recs, c16_rs='/verif/harness/src/bin/c16.rs'):
+def scan(recs, c16_rs='/verif/harness/src/bin/c16.rs', repo=REPO):
     """returns (compared, skipped, mismatches): lists of strings"""
     by = {(r['crate'], r['name']): r for r in recs if r.get('kind') != 'id'}
     crates = {}
 
     def crate_of(c):
         if c not in crates:
-            d = crate_dir(c)
+            d = crate_dir(c, repo)
             crates[c] = Crate(d) if os.path.exists(d) else None
         return crates[c]
 
@@ -478,10 +478,10 @@ def scan(recs, c16_rs='/verif/harness/src/bin/c16.rs'):
     return compared, skipped, bad
 
 
-def private_psi(crate, p):
+def private_psi(crate, p, repo=REPO):
     """P_POWER_ENDOMORPHISM_COEFF_0/1 and DOUBLE_P_POWER_ENDOMORPHISM_COEFF_0 of curves/<crate>/src/curves/g2.rs:
     private constants, so they cannot be dumped from the compiled crate; read from the source text"""
-    cr = Crate(crate_dir(crate))
+    cr = Crate(crate_dir(crate, repo))
     f = [g for g in cr.files.values() if g.path.endswith('/curves/g2.rs')][0]
     out = {}
     for key, name in (('COEFF_0', 'P_POWER_ENDOMORPHISM_COEFF_0'), ('COEFF_1', 'P_POWER_ENDOMORPHISM_COEFF_1'),
